@@ -724,6 +724,95 @@ def _c12_clause_dict(src: Src) -> str:
     return f"def clauseDictSrc : List String := {lean_str_list(pinned_source(src, 'cobol_parser', 'clause_dict'))}"
 
 
+# ---- C08: json_type (both vocabularies) ---------------------------------------------------------
+
+
+def _dict_leaf(node: ast.AST) -> str:
+    """{"type": t, "contentEncoding": e, "conversion": c} -> Lean triple"""
+    if not isinstance(node, ast.Dict):
+        raise Unavailable(f"json_type leaf is not a dict literal: {ast.unparse(node)}")
+    d = {}
+    for k, v in zip(node.keys, node.values):
+        if not (isinstance(k, ast.Constant) and isinstance(v, ast.Constant) and isinstance(k.value, str) and isinstance(v.value, str)):
+            raise Unavailable("json_type dict is not string -> string")
+        d[k.value] = v.value
+    extra = set(d) - {"type", "contentEncoding", "conversion"}
+    if extra or "type" not in d:
+        raise Unavailable(f"json_type dict has unexpected keys {sorted(extra)}")
+    opt = lambda k: f"some {lean_str(d[k])}" if k in d else "none"  # noqa: E731
+    return f"({lean_str(d['type'])}, {opt('contentEncoding')}, {opt('conversion')})"
+
+
+def _json_type_ladder(fn: ast.FunctionDef) -> str:
+    """usage ladder over `usage == "DISPLAY"` / `usage in {...}` with dict leaves (assigned to `schema` or returned)"""
+    chain = next((s for s in fn.body if isinstance(s, ast.If)), None)
+    if chain is None:
+        raise Unavailable("json_type: no if ladder")
+    num_src = None
+
+    def leaf(stmts: list[ast.stmt]) -> str:
+        nonlocal num_src
+        stmts = [s for s in stmts if not is_docstring(s)]
+        s0 = stmts[0]
+        if isinstance(s0, ast.Assign) and ast.unparse(s0.targets[0]) == "picture":
+            stmts = stmts[1:]
+            s0 = stmts[0]
+        if isinstance(s0, ast.If):
+            num_src = ast.unparse(s0.test)
+            then = leaf(s0.body)
+            rest = s0.orelse if s0.orelse else stmts[1:]
+            return f"(if numericRaw then {then} else {leaf(rest)})"
+        if isinstance(s0, ast.Assign) and ast.unparse(s0.targets[0]) == "schema":
+            return _dict_leaf(s0.value)
+        if isinstance(s0, ast.Return) and s0.value is not None:
+            return _dict_leaf(s0.value)
+        raise Unavailable(f"json_type leaf: {ast.unparse(s0)[:60]}")
+
+    lines = []
+    node: Any = chain
+    while isinstance(node, ast.If):
+        t = node.test
+        if isinstance(t, ast.Compare) and ast.unparse(t.left) == "usage" and len(t.ops) == 1:
+            if isinstance(t.ops[0], ast.Eq) and isinstance(t.comparators[0], ast.Constant):
+                usages = [t.comparators[0].value]
+            elif isinstance(t.ops[0], ast.In):
+                usages = [e.value for e in literal_elts(t.comparators[0])]  # type: ignore[attr-defined]
+            else:
+                raise Unavailable("json_type test")
+        else:
+            raise Unavailable(f"json_type test {ast.unparse(t)}")
+        lines.append(f"  if usage ∈ [{', '.join(lean_str(u) for u in sorted(usages))}] then some {leaf(node.body)} else")
+        if len(node.orelse) == 1 and isinstance(node.orelse[0], ast.If):
+            node = node.orelse[0]
+        else:
+            if not (node.orelse and isinstance(node.orelse[-1], ast.Raise)):
+                raise Unavailable("json_type ladder does not end in raise")
+            node = None
+    lines.append("  none")
+    return "\n".join(lines), num_src  # type: ignore[return-value]
+
+
+@item("C08", "jsonType", "def jsonType (usage : String) (numericRaw : Bool) : Option (String × Option String × Option String) := none -- extraction unavailable\ndef numericTest : String := \"\"")
+def _c08_json_type(src: Src) -> str:
+    body, num = _json_type_ladder(src.func("cobol_parser", "JSONSchemaMaker.json_type"))
+    return ("/-- `JSONSchemaMaker.json_type` -/\n"
+            "def jsonType (usage : String) (numericRaw : Bool) : Option (String × Option String × Option String) :=\n" + body +
+            f"\n/-- the test that makes a DISPLAY item numeric -/\ndef numericTest : String := {lean_str(num or '')}")
+
+
+@item("C08", "jsonTypeExt", "def jsonTypeExt (usage : String) (numericRaw : Bool) : Option (String × Option String × Option String) := none -- extraction unavailable\ndef numericTestExt : String := \"\"")
+def _c08_json_type_ext(src: Src) -> str:
+    body, num = _json_type_ladder(src.func("cobol_parser", "JSONSchemaMakerExtendedVocabulary.json_type"))
+    return ("/-- `JSONSchemaMakerExtendedVocabulary.json_type` -/\n"
+            "def jsonTypeExt (usage : String) (numericRaw : Bool) : Option (String × Option String × Option String) :=\n" + body +
+            f"\ndef numericTestExt : String := {lean_str(num or '')}")
+
+
+@item("C08", "ebcdicValue", "def ebcdicValueSrc : List String := [] -- extraction unavailable")
+def _c08_value(src: Src) -> str:
+    return f"def ebcdicValueSrc : List String := {lean_str_list(pinned_source(src, 'schema_instance', 'EBCDIC.value'))}"
+
+
 # ------------------------------------------------------------------------------------------
 # driver
 # ------------------------------------------------------------------------------------------
